@@ -281,12 +281,55 @@ def check_layout_migration():
         k += 1
 
 
+def check_layout_existing_target():
+    """folder-layout migration when ./tally/ is already there with sub-directories of the same names (say from an earlier `tally init`): afterwards the budget is
+    usable (config/ and data/ with the user's files side by side), now or after running the migration again - never nested where no command finds it"""
+    for with_data in (False, True):
+        root = tempfile.mkdtemp(prefix='layout2-')
+        cwd = os.getcwd()
+        try:
+            for d in ('config', 'data', 'tally/config') + (('tally/data',) if with_data else ()):
+                os.makedirs(os.path.join(root, d))
+            open(os.path.join(root, 'config', 'settings.yaml'), 'w').write('year: 2025\n# mine\n')
+            open(os.path.join(root, 'data', 'card.csv'), 'w').write(DATA)
+            open(os.path.join(root, 'tally', 'config', 'settings.yaml'), 'w').write('year: 2025\n# starter\n')
+            os.chdir(root)
+            O.case(('layout_existing', with_data))
+            import contextlib
+            import io
+            with contextlib.redirect_stdout(io.StringIO()), contextlib.redirect_stderr(io.StringIO()):
+                cli.migrate_v0_to_v1(os.path.join(root, 'config'), skip_confirm=True)
+
+            def state():
+                for base in (root, os.path.join(root, 'tally')):
+                    s_ = os.path.join(base, 'config', 'settings.yaml')
+                    if os.path.isfile(s_):
+                        return '# mine' in open(s_).read() and os.path.isfile(os.path.join(base, 'data', 'card.csv'))
+                return False
+            ok = state()
+            if not ok:
+                with contextlib.redirect_stdout(io.StringIO()), contextlib.redirect_stderr(io.StringIO()):
+                    cfg = cli.find_config_dir()
+                    if cfg:
+                        cli.run_migrations(cfg, skip_confirm=True)
+                ok = state()
+            if not ok:
+                tree = sorted(os.path.relpath(os.path.join(dp, f), root) for dp, dn, fn in os.walk(root) for f in fn)
+                O.fail('C15.layout_migration.existing_target.stranded', {'function': 'migrate_v0_to_v1', 'existing_tally_dir': True, 'tally_data_exists': with_data},
+                       "the user's config/ and data/ side by side now or after re-running the migration", tree, 'cli.migrate_v0_to_v1 with ./tally/config already present')
+        finally:
+            os.chdir(cwd)
+            shutil.rmtree(root, ignore_errors=True)
+
+
 def main():
     if O.witness:
         if 'existing' in O.witness:
             check_existing_targets()
         elif 'command_settings' in O.witness:
             check_completed_command()
+        elif O.witness.get('existing_tally_dir'):
+            check_layout_existing_target()
         elif O.witness.get('function') == 'migrate_v0_to_v1':
             check_layout_migration()
         else:
@@ -297,6 +340,7 @@ def main():
     check_existing_targets()
     check_completed_command()
     check_layout_migration()
+    check_layout_existing_target()
     O.sample({'function': '_migrate_csv_to_rules', 'event': 'crash', 'primitive_index': 3})
     O.finish()
 
